@@ -31,6 +31,10 @@ GEOM = {
     "ldn": [(0.0, 1.0), (-0.6, 1.0), (0.603, 1.0)],
     "udn2": [(0.0, 1.0), (-0.62, 1.0), (0.6, 1.0)],
     "ldn2": [(0.0, 1.0), (-0.6, 1.0), (0.62, 1.0)],
+    # almost balanced: the X-points differ in psi by less than one radial cell, so the double null
+    # can be gridded as connected (nx_inter_sep=0) although psi_sep[0] != psi_sep[1]
+    "udn1": [(0.0, 1.0), (-0.6002, 1.0), (0.6, 1.0)],
+    "ldn1": [(0.0, 1.0), (-0.6, 1.0), (0.6003, 1.0)],
 }
 
 
@@ -281,6 +285,6 @@ def base_options(geom, orthogonal=True):
     if geom == "cdn":
         o["nx_inter_sep"] = 0
         o["ny_sol"] = 6
-    if geom in ("udn", "ldn", "udn2", "ldn2"):
+    if geom in ("udn", "ldn", "udn2", "ldn2", "udn1", "ldn1"):
         o["ny_sol"] = 6
     return o
